@@ -962,6 +962,11 @@ func (m *Model) verifyFunc(name string, ct *Contract) (*Enc, error) {
 			goal := e.specBool(sc, en.Expr)
 			e.oblige(r.guard, "post", fmt.Sprintf("%s@ret%d", clauseLabel(en), k), goal, e.clauseProps(fc, en), fn.Pos(), en.Src)
 		}
+		for _, en := range ct.Exits {
+			sc := e.specCtxPost(fc, r.st, r.guard, rs)
+			goal := e.specBool(sc, en.Expr)
+			e.oblige(r.guard, "exit", fmt.Sprintf("%s@ret%d", clauseLabel(en), k), goal, e.clauseProps(fc, en), fn.Pos(), en.Src)
+		}
 		if ct.HasMod {
 			e.frameObligations(fc, r, k)
 		} else if ct.HasUpd {
@@ -977,6 +982,15 @@ func (m *Model) verifyFunc(name string, ct *Contract) (*Enc, error) {
 // specCtxPost: names are parameters (entry values) and results.
 func (e *Enc) specCtxPost(fc *fctx, st *State, guard string, results []string) *specCtx {
 	sc := &specCtx{e: e, st: st, old: fc.entrySt, guard: guard, vars: map[string]SV{}, oldVars: map[string]SV{}, fc: fc, pkg: e.pkgOf(fc.fn)}
+	if results != nil {
+		// postconditions may mention local variables as they are at the return (parameters and results take precedence)
+		for k, v := range e.specCtx(fc, st, guard).vars {
+			if k == "err" || k == "result" || strings.HasPrefix(k, "result") {
+				continue // these names denote the returned values in a postcondition
+			}
+			sc.vars[k] = v
+		}
+	}
 	sc.vars["$thisfn"] = SV{T: e.fnRef(fc.fn), Ty: fc.fn.Signature}
 	for i, p := range fc.fn.Params {
 		sv := SV{T: e.asTermQuiet(fc.params[i]), Ty: p.Type()}
